@@ -184,7 +184,7 @@ static void mode_text(Case &c) {
 		int errpos = -1; const char *msg = lzma_str_to_filters(str, &errpos, f2, LZMA_STR_ALL_FILTERS, NULL);
 		if (msg) violation("C06:text-form", "own text form '%s' rejected at %d: %s", str, errpos, msg);
 		if (!filters_equal(g.filters, f2)) violation("C06:text-form", "text form '%s' parses to different options", str);
-		g_stats.current += std::string(" text=") + str;
+		{ std::string &d = g_stats.current; if (!d.empty() && d.back() == '}') { d.pop_back(); d += ",\"text\":" + jstr(str) + "}"; } }
 		free(str);
 		count("text_chain");
 	}
